@@ -40,7 +40,7 @@ def build_cases(seed, salt, n, per_pair_configs=3, translucent_every=7, classes=
             if sp is not None:
                 case.update({"tk": kind, "text": SP.jsonable(sp), "alpha": a, "fg": list(fg)})
         if per_pair_configs >= len(CONFIGS):
-            cfgs = list(CONFIGS)
+            cfgs = rnd.sample(CONFIGS, len(CONFIGS))   # every configuration, in an order that differs from pair to pair
         else:
             cfgs = rnd.sample(CONFIGS, per_pair_configs)
         case["cfgs"] = [list(c) for c in cfgs]
